@@ -153,6 +153,11 @@ func main() {
 				}
 			}
 		}
+		if os.Getenv("ZCHECK_RETURNS") == "funcs" {
+			b, _ := json.MarshalIndent(p.FuncNames(), "", " ")
+			fmt.Println(string(b))
+			return
+		}
 		if os.Getenv("ZCHECK_RETURNS") == "context" {
 			r := &Run{P: p, Funcs: map[string]bool{}, Regions: map[string]int{}}
 			var crows []*ctxRow
@@ -216,6 +221,7 @@ func main() {
 				}
 				if os.Getenv("ZCHECK_RETURNS") == "allguards" {
 					forms = r.P.Info(fn).RejectConds()
+					forms = append(forms, r.tailBoolRejects(fn)...)
 					seen := map[string]bool{}
 					var u []string
 					for _, f := range forms {
